@@ -173,7 +173,8 @@ class _DocProxy:
 
     def clear(self):
         """Clear proxy data."""
-        self.doc.clear()
+        if not self.dry_run:
+            self.doc.clear()
 
     def update(self, other):
         """Update proxy data with other."""
@@ -454,8 +455,11 @@ class DocSync:
         def __str__(self):
             return f"{type(self).__name__}({self.key_strategy})"
 
-        def __call__(self, src, dst, root=""):
+        def __call__(self, src, dst, root="", _skipped=None):
             """Synchronize src and dst."""
+            # Conflicts are collected per top-level call, because the instance may be
+            # shared between jobs and threads; skipped_keys accumulates them for reporting.
+            skipped = set() if _skipped is None else _skipped
             if src == dst:
                 return
             for key, value in src.items():
@@ -466,20 +470,21 @@ class DocSync:
                         nested = dst[key]
                         if isinstance(dst, _DocProxy) and isinstance(nested, Mapping):
                             nested = _DocProxy(nested, dry_run=dst.dry_run)
-                        self(src[key], nested, root + key + ".")
+                        self(src[key], nested, root + key + ".", skipped)
                         continue
                     elif self.key_strategy is None or not self.key_strategy(root + key):
-                        self.skipped_keys.add(root + key)
+                        skipped.add(root + key)
                         continue
                 dst[key] = value
 
             # Check for skipped keys and raise an exception in case that no strategy
             # was provided, otherwise just log them.
-            if self.skipped_keys and not root:
+            if skipped and _skipped is None:
+                self.skipped_keys.update(skipped)
                 if self.key_strategy is None:
-                    raise DocumentSyncConflict(self.skipped_keys)
+                    raise DocumentSyncConflict(skipped)
                 else:
-                    logger.more("Skipped keys: {}".format(", ".join(self.skipped_keys)))
+                    logger.more("Skipped keys: {}".format(", ".join(skipped)))
 
 
 def _sync_job_workspaces(
